@@ -14,7 +14,7 @@
 
 from typing import Dict
 
-from sympy import Symbol, cse
+from sympy import Symbol, cse, numbered_symbols
 from sympy.logic.boolalg import And, Boolean, Not, Or, Xor, simplify_logic
 
 from ..ast2logic import BoolExpList
@@ -56,9 +56,15 @@ def merge_expressions(exps: BoolExpList) -> BoolExpList:
 
 def apply_cse(exps: BoolExpList) -> BoolExpList:
     lsts = list(zip(*exps))
-    repl, red = cse(list(lsts[1]))
-
     defined = set(lsts[0])
+
+    # The new symbols must differ also from the symbols the list defines (cse only
+    # avoids the ones used inside the expressions)
+    repl, red = cse(
+        list(lsts[1]),
+        symbols=filter(lambda s: s not in defined, numbered_symbols()),
+    )
+
     if not any(r_exp.free_symbols & defined for (_, r_exp) in repl):
         return repl + list(zip(lsts[0], red))
 
